@@ -6,7 +6,7 @@
   Totality: every function of the model is a total Lean function (structural recursion;
   the places where Go could index out of range return `Err.panic`, see `C12_no_model_panic*`).
 -/
-import Influx.Lemmas.LineProtocolSortPath
+import Influx.Lemmas.LineProtocolNoPanic
 
 namespace Influx.Props.C12
 open Influx.LP Influx.LP.Trace12 Influx.Spec.C12 Influx.Generated.LineProto
@@ -144,6 +144,22 @@ theorem C12_holdsOn (buf : Bytes) (dt : Int) (prec : String) :
   · cases hdt : dtSane dt with
     | false => left; rfl
     | true => right; exact C12_timestamp l dt prec p hl hdt
+
+/-- **totality, model level**: no line is answered with one of the modelled out-of-range
+    outcomes (`scanTags` index growth, `scanToSpaceOr` past the end, `scanFields` look-behind
+    before the buffer): where Go could index out of range, the model proves it does not -/
+theorem C12_no_model_panic (buf : Bytes) (dt : Int) (prec : String) :
+    ∀ f ∈ failedLines (parseLines buf dt prec), f.2.isPanic = false := by
+  intro f hf
+  unfold failedLines at hf
+  obtain ⟨r, hr, hfr⟩ := List.mem_filterMap.mp hf
+  obtain ⟨l, res⟩ := r
+  cases res with
+  | ok q => simp at hfr
+  | error e =>
+    simp at hfr; subst hfr
+    have := mem_parseLines buf dt prec l _ hr
+    exact parsePoint_noPanic l dt prec e this.symm
 
 /-- the line that made `Fields()`/`StringValue()` panic before the fix is rejected now -/
 theorem C12_lone_quote_rejected :
